@@ -79,7 +79,7 @@ let discr_of = function A "none" -> None | e -> Some (expr_of e)
 let val_of_meta = function
   | A "none" -> M.MVNone | A "true" -> M.MVTrue | A "false" -> M.MVFalse | A "other" -> M.MVOther
   | Lst [A "path"; A p] -> M.MVPath (coq_string p)
-  | Lst [A "str"; A s; A b] -> M.MVStr (coq_string s, b = "1")
+  | Lst [A "str"; A s; A b] -> M.MVStr (coq_string s, bool_of b)
   | _ -> failwith "meta value"
 let item_meta_of = function
   | Lst [A "usedisc"; v] -> { M.im_key = M.IKUseDiscriminant; M.im_val = val_of_meta v }
@@ -88,7 +88,7 @@ let item_meta_of = function
   | Lst [A "other"; A k] -> { M.im_key = M.IKOther (coq_string k); M.im_val = M.MVNone }
   | Lst [A "other"; A k; v] -> { M.im_key = M.IKOther (coq_string k); M.im_val = val_of_meta v }
   | _ -> failwith "item meta"
-let b01 s = (s = "1")
+let b01 s = bool_of s
 let field_meta_of = function
   | A "skip" -> M.FSkip
   | Lst [A "serwith"; A p; t] -> M.FSerializeWith (coq_string p, ty_of t)
